@@ -2,6 +2,7 @@ package redisemu
 
 import (
 	"math/big"
+	"reflect"
 	"strconv"
 	"strings"
 
@@ -434,6 +435,17 @@ func (rl *respDeserializer) plausibleCount(count int) bool {
 	return count <= len(rl.content)-rl.pos
 }
 
+// set members and map keys are used as Go map keys: an aggregate (e.g. an array) in that position
+// cannot be hashed and is refused as malformed input
+func (rl *respDeserializer) keyOf(v respValue) (key respValue, valid bool) {
+	key = respNormalizeKey(v)
+	if key.data != nil && !reflect.TypeOf(key.data).Comparable() {
+		rl.l.Errorf("aggregate used as set member or map key on line %d", rl.lineNumber)
+		return
+	}
+	return key, true
+}
+
 func (rl *respDeserializer) getNextArray(count int) (value respArray, valid bool) {
 	if !rl.plausibleCount(count) {
 		return
@@ -462,7 +474,9 @@ func (rl *respDeserializer) getNextMap(pairs int) (value respMap, valid bool) {
 		if k, valid = rl.getNextValue(); !valid {
 			return
 		}
-		k = respNormalizeKey(k)
+		if k, valid = rl.keyOf(k); !valid {
+			return
+		}
 		if v, valid = rl.getNextValue(); !valid {
 			return
 		}
@@ -484,7 +498,9 @@ func (rl *respDeserializer) getNextAttributeMap(pairs int) (value respAttributeM
 		if k, valid = rl.getNextValue(); !valid {
 			return
 		}
-		k = respNormalizeKey(k)
+		if k, valid = rl.keyOf(k); !valid {
+			return
+		}
 		if v, valid = rl.getNextValue(); !valid {
 			return
 		}
@@ -506,7 +522,9 @@ func (rl *respDeserializer) getNextSet(count int) (value respSet, valid bool) {
 		if v, valid = rl.getNextValue(); !valid {
 			return
 		}
-		v = respNormalizeKey(v)
+		if v, valid = rl.keyOf(v); !valid {
+			return
+		}
 		s[v] = struct{}{}
 	}
 
@@ -602,7 +620,9 @@ func (rl *respDeserializer) getNextDynamicMap() (value respMap, valid bool) {
 		if k.isEnd() {
 			return m, true
 		}
-		k = respNormalizeKey(k)
+		if k, valid = rl.keyOf(k); !valid {
+			return
+		}
 		if v, valid = rl.getNextValue(); !valid {
 			return
 		}
@@ -623,7 +643,9 @@ func (rl *respDeserializer) getNextDynamicAttributeMap() (value respAttributeMap
 			return m, true
 		}
 
-		k = respNormalizeKey(k)
+		if k, valid = rl.keyOf(k); !valid {
+			return
+		}
 		if v, valid = rl.getNextValue(); !valid {
 			return
 		}
@@ -643,7 +665,9 @@ func (rl *respDeserializer) getNextDynamicSet() (value respSet, valid bool) {
 		if v.isEnd() {
 			return s, true
 		}
-		v = respNormalizeKey(v)
+		if v, valid = rl.keyOf(v); !valid {
+			return
+		}
 		s[v] = struct{}{}
 	}
 }
